@@ -126,6 +126,42 @@ fn main() {
                 }
                 writeln!(out, "M {} {}", mon::hex(&gen::render_random(&sa.tokens(), &mut r)), mon::hex(&gen::render_random(&sb.tokens(), &mut r))).unwrap();
             }
+            // all ordered pairs of real-world subtags of one kind in the same position (==, cmp, hash, matches):
+            // an ordering or comparison that depends on the configuration shows on particular pairs only
+            {
+                use vmon::lexicon as lx;
+                use vmon::refspec as rs;
+                let ok = |l: &'static [&'static str], f: fn(&[u8]) -> bool| -> Vec<&'static str> { l.iter().copied().filter(|w| f(w.as_bytes())).collect() };
+                let (ss, rg, vs, ls) = (ok(lx::SCRIPTS, rs::is_script), ok(lx::REGIONS, rs::is_region), ok(lx::VARIANTS, rs::is_variant), ok(lx::LANGS, rs::is_lang));
+                let step = if quick { 3 } else { 1 };
+                let mut n = 0usize;
+                let mut pair = |out: &mut dyn std::io::Write, a: String, b: String| {
+                    n += 1;
+                    if n % step == 0 {
+                        writeln!(out, "M {} {}", mon::hex(a.as_bytes()), mon::hex(b.as_bytes())).unwrap();
+                    }
+                };
+                for a in &ss {
+                    for b in &ss {
+                        pair(&mut out, format!("mn-{}", a), format!("mn-{}", b));
+                    }
+                }
+                for a in &rg {
+                    for b in &rg {
+                        pair(&mut out, format!("es-{}", a), format!("es-{}", b));
+                    }
+                }
+                for a in &vs {
+                    for b in &vs {
+                        pair(&mut out, format!("de-{}", a), format!("de-{}", b));
+                    }
+                }
+                for (i, a) in ls.iter().enumerate() {
+                    for b in ls.iter().skip(i % 4).step_by(4) {
+                        pair(&mut out, a.to_string(), b.to_string());
+                    }
+                }
+            }
             // comparison pairs over the CLDR likely-subtags corpus: key vs value, value vs key, and the key
             // against the value carrying another script / region (identifiers the data tables know about)
             if let Ok(lk) = vmon::likely::Likely::load() {
